@@ -161,6 +161,17 @@ class StandardRequestHandler(ControlRequestHandler):
                         with m.Default():
                             m.next = 'UNHANDLED'
 
+                    # The GET_* requests carry their answer in an IN data stage; the other requests we handle
+                    # have none. A request whose direction / length says otherwise is a request error, which
+                    # we answer like any other request we can't handle: with a STALL [USB 2.0: 9.2.7].
+                    has_in_data_stage = setup.is_in_request & (setup.length != 0)
+                    expects_in_data_stage = \
+                        (setup.request == USBStandardRequests.GET_STATUS)     | \
+                        (setup.request == USBStandardRequests.GET_DESCRIPTOR) | \
+                        (setup.request == USBStandardRequests.GET_CONFIGURATION)
+                    with m.If(has_in_data_stage != expects_in_data_stage):
+                        m.next = 'UNHANDLED'
+
                 with m.Else():
                     m.next = 'IDLE'
 
